@@ -244,12 +244,25 @@ func TestStress(t *testing.T) {
 	}()
 	rounds := 200
 	in.Param("rounds", &rounds)
+	var events []map[string]any
 	for round := 0; round < rounds; round++ {
-		stressRound(t, in, round, res)
+		events = append(events, stressRound(t, in, round, res)...)
+	}
+	var traceOut string
+	if in.Param("trace_out", &traceOut) && traceOut != "" {
+		f, err := os.Create(traceOut)
+		if err != nil {
+			t.Fatal(err)
+		}
+		enc := json.NewEncoder(f)
+		for _, e := range events {
+			_ = enc.Encode(e)
+		}
+		_ = f.Close()
 	}
 }
 
-func stressRound(t *testing.T, in *vio.Input, round int, res *vio.Result) {
+func stressRound(t *testing.T, in *vio.Input, round int, res *vio.Result) (events []map[string]any) {
 	rnd := rand.New(rand.NewPCG(uint64(in.Seed), uint64(round)))
 	dir := t.TempDir()
 	keyLen := 32
@@ -275,6 +288,8 @@ func stressRound(t *testing.T, in *vio.Input, round int, res *vio.Result) {
 		res.Break("round %d: %v", round, err)
 		return
 	}
+	var evMu sync.Mutex
+	events = append(events, map[string]any{"e": "init", "list": map[string]string{"A": "k1", "B": credenv.None}})
 	var hookMu sync.Mutex
 	hrnd := rand.New(rand.NewPCG(uint64(in.Seed)+7, uint64(round)))
 	verifhook.Set(func(point string, args ...any) {
@@ -326,6 +341,16 @@ func stressRound(t *testing.T, in *vio.Input, round int, res *vio.Result) {
 		go func() {
 			defer wg.Done()
 			for _, r := range seq {
+				u, k := r.U, r.K
+				if u == "" {
+					u = credenv.None
+				}
+				if k == "" {
+					k = credenv.None
+				}
+				evMu.Lock()
+				events = append(events, map[string]any{"e": "call", "w": fmt.Sprintf("w%d", w), "op": r.Op, "u": u, "k": k})
+				evMu.Unlock()
 				switch r.Op {
 				case "Add":
 					r.Out = e.Add(r.U, r.K)
@@ -337,6 +362,9 @@ func stressRound(t *testing.T, in *vio.Input, round int, res *vio.Result) {
 					r.Out = e.Reload()
 				}
 				r.W = w
+				evMu.Lock()
+				events = append(events, map[string]any{"e": "ret", "w": fmt.Sprintf("w%d", w), "out": r.Out})
+				evMu.Unlock()
 				mu.Lock()
 				log = append(log, r)
 				mu.Unlock()
@@ -344,6 +372,9 @@ func stressRound(t *testing.T, in *vio.Input, round int, res *vio.Result) {
 		}()
 	}
 	wg.Wait()
+	if fl, err := e.List(users); err == nil {
+		events = append(events, map[string]any{"e": "final", "list": fl})
+	}
 	// shut down: acknowledged changes must be saved before Stop returns
 	cancel()
 	_ = e.Mgr.Stop()
@@ -384,4 +415,5 @@ func stressRound(t *testing.T, in *vio.Input, round int, res *vio.Result) {
 	res.AddSteps(1, len(log))
 	res.Seen(fmt.Sprintf("%v", list))
 	res.Sample(map[string]any{"round": round, "log": log, "final": list}, 2)
+	return events
 }
